@@ -139,7 +139,7 @@ func (s *Sim) opConnect(op *Op) {
 		for _, o := range sess.Out {
 			o.Offline = false
 			if o.Pubrec {
-				sl.expect(&Expect{Kind: rc.PUBREL, PID: o.PID, Out: o, Rule: "C09/not-resent-after-reconnect", Attrs: map[string]string{"what": "PUBREL", "deferred": fmt.Sprint(o.Deferred)}, What: fmt.Sprintf("PUBREL id %d for %s after reconnect", o.PID, o.M.ID), Step: m.Step, SP: -1})
+				sl.expect(&Expect{Kind: rc.PUBREL, PID: o.PID, Out: o, Rule: "C09/not-resent-after-reconnect", Attrs: map[string]string{"what": "PUBREL", "was_deferred": fmt.Sprint(o.WasDeferred)}, What: fmt.Sprintf("PUBREL id %d for %s after reconnect", o.PID, o.M.ID), Step: m.Step, SP: -1})
 				sl.inflight[o.PID] = o
 				continue
 			}
